@@ -183,4 +183,17 @@ func init() {
 			{ID: "R12.4", Title: "consumer goroutines are always fed: every path behind the spawn runs the CopyProducer feeding function", Floor: 1, Run: ruleR124},
 		},
 	})
+	register(&Property{
+		ID:        "C13",
+		Technique: "sibling agreement of the MapStorage implementations: symbolic key-domain extraction (DNF over storage atoms with absorption) from Get, Iter and Size of every implementation; presence-test dominance for wrappers that add keys; representation-independence check of observers (no assertion to a concrete storage); abstract-view check of the flattening",
+		Explanation: "Decides that every map representation answers Get, Iter and Size over one and the same symbolic key domain (so member access, get, isAvail, ~, size(), list(), string(), equality and export can not see different key sets), that wrappers which add keys are built only after a boolean presence test found them absent (put, +, createLowPass, map literals), " +
+			"that observers never inspect the concrete representation (apart from the depth counter of replace chains and optional capability interfaces), and that the flattening of deep replace chains copies the map's own abstract view; plus the in-place update rules R09.2. Not decided: agreement of values (only key domains), host-provided storages.",
+		Assumptions: []string{"a host function behind NewFuncMapFactory accepts only the keys it was declared with"},
+		Rules: []*Rule{
+			{ID: "R13.1", Title: "key-domain agreement: Get, Iter and Size of every MapStorage implementation range over the same symbolic key set", Floor: 9, Run: ruleR131},
+			{ID: "R13.2", Title: "uniqueness: wrappers that add keys are dominated by a boolean presence test; map literals test before append", Floor: 5, Run: ruleR132},
+			{ID: "R13.3", Title: "representation independence: observers use the MapStorage interface only; flattening copies the abstract view", Floor: 3, Run: ruleR133},
+			{ID: "R09.2", Title: "maps are never updated in place (see C09)", Floor: 40, Run: ruleR092},
+		},
+	})
 }
